@@ -242,7 +242,9 @@ impl FiberFile {
 
         // Direct read for large requests or misaligned access.  The OS cursor is not the logical
         // position after a read-ahead, a read_at or a seek inside the read-ahead window: go there first.
-        if buf.len() >= self.config.read_buffer_size {
+        // (Also the only path when read-ahead is switched off: an empty read-ahead buffer made every
+        // small read return Ok(0), i.e. a false end of file.)
+        if buf.len() >= self.config.read_buffer_size || self.read_ahead_buffer.is_empty() {
             self.inner
                 .seek(tokio::io::SeekFrom::Start(self.position))
                 .await?;
